@@ -42,6 +42,10 @@ CATALOGUE = [
     '(declare-const w Int)\n(declare-const a Int)\n(assert (= w (+ a 1)))\n',
     '(declare-const p Bool)\n(declare-const q Bool)\n(declare-const r Bool)\n(assert (= p (and q r)))\n',
     '(declare-const v (_ BitVec 8))\n(declare-const u (_ BitVec 8))\n(assert (= (bvadd u #x01) v))\n(assert (bvult v u))\n',
+    # an equality between two copies of a term: a fresh variable for one of
+    # them can be eliminated again
+    '(declare-const a Int)\n(assert (= (+ a 1) (+ a 1)))\n',
+    '(declare-const v (_ BitVec 4))\n(declare-const u (_ BitVec 4))\n(assert (= (bvand u v) (bvand u v)))\n',
     # two variables, an equality and a second use: variable-for-variable
     # rewrites in both directions (also with --replace-by-variable-mode dec)
     '(declare-const a Int)\n(declare-const b Int)\n(assert (= a b))\n(assert (> a 0))\n',
@@ -365,6 +369,63 @@ def same_size_cycles(ex, ns, res, text, max_depth=3, cap=25):
     return found
 
 
+def growth_cycles(ex, ns, res, text, depth=3, cap=60, breadth=10):
+    """Cycles that start with a step which *enlarges* the seed (a variable
+    eliminated in favour of a term, a function inlined, a fresh variable
+    declared ...) and come back to it within ``depth`` steps.  After the
+    first step the states closest to the seed (symmetric difference of the
+    token multisets) are expanded first: the way back has to undo the
+    growth."""
+    import collections
+    exprs = list(ns.nodeio.parse_smtlib(text))
+    k0 = ex.key(exprs)
+    size0 = ns.nodes.count_nodes(exprs)
+    toks0 = collections.Counter(k0.split('\x00'))
+    found = []
+    budget = [cap]
+
+    def dist(t):
+        c = collections.Counter(ex.key(t).split('\x00'))
+        return sum(((c - toks0) + (toks0 - c)).values())
+
+    def dfs(state, names, states, d):
+        if budget[0] <= 0 or found:
+            return
+        budget[0] -= 1
+        res.count('states_expanded')
+        res.count('growth_search_states')
+        succ = ex.successors(state, cap_per_node=4)
+        keyed = []
+        seen = {ex.key(x) for x in states[1:]}
+        for m, i, t in succ:
+            res.count('edges')
+            k = ex.key(t)
+            if k == k0:
+                found.append((f'{len(names) + 1}-cycle', names + [(m, i)],
+                              states + [t]))
+                return
+            if k not in seen:
+                seen.add(k)
+                keyed.append((dist(t), m, i, t))
+        if d + 1 < depth:
+            keyed.sort(key=lambda x: x[0])
+            for _, m, i, t in keyed[:breadth]:
+                dfs(t, names + [(m, i)], states + [t], d + 1)
+
+    first = [(m, i, t) for m, i, t in ex.successors(exprs)
+             if ns.nodes.count_nodes(t) > size0]
+    res.count('states_expanded')
+    seen_first = set()
+    for m, i, t in first:
+        k = ex.key(t)
+        if k in seen_first:
+            continue
+        seen_first.add(k)
+        res.count('growth_first_steps')
+        dfs(t, [(m, i)], [exprs, t], 1)
+    return found
+
+
 def random_walk(ex, ns, res, r, text, steps=40):
     exprs = list(ns.nodeio.parse_smtlib(text))
     path = [ex.key(exprs)]
@@ -376,6 +437,20 @@ def random_walk(ex, ns, res, r, text, steps=40):
         res.count('states_expanded')
         if not succ:
             break
+        # any of the proposals seen here that leads back closes a cycle
+        hit = None
+        for mname, i, t in succ:
+            k = ex.key(t)
+            if k in path:
+                hit = (mname, i, t, k)
+                break
+        if hit:
+            mname, i, t, k = hit
+            names.append((mname, i))
+            j = path.index(k)
+            return [(f'{len(path) - j}-cycle' if len(path) - j > 1 or
+                     k != path[-1] else 'noop', names[j:],
+                     states[j:] + [t])]
         # prefer size-non-decreasing steps: a cycle needs one
         cur = ns.nodes.count_nodes(states[-1])
         pick = r.sample(succ, min(8, len(succ)))
@@ -396,6 +471,14 @@ def random_walk(ex, ns, res, r, text, steps=40):
         if ns.nodes.count_nodes(t) > 400:
             break
     return []
+
+
+def _count_writes(wd):
+    try:
+        with open(os.path.join(wd, 'events.jsonl'), 'rb') as f:
+            return f.read().count(b'"ev": "write"')
+    except OSError:
+        return 0
 
 
 def confirm(res, base, ns, cand, origin, idx, dec=False):
@@ -421,10 +504,15 @@ def confirm(res, base, ns, cand, origin, idx, dec=False):
             opts=['--strategy', strat, '-j', '1', '--timeout', '20',
                   '--bv', '--fp', '--strings', '--datatypes',
                   '--arithmetic'] + mode,
-            launcher={'monitors': ['write']}, timeout=40)
+            launcher={'monitors': ['write']}, timeout=40,
+            stop_when=lambda wd_, lim=(len(states) - 6 if kind == 'pump'
+                                       else 3 * len(states) + 10):
+            _count_writes(wd_) > lim + 5)
         res.count('confirmation_runs')
         writes = [e for e in run.events if e['ev'] == 'write']
-        limit = 10 * len(states) + 50
+        # the command accepts exactly the members of the chain, so a run
+        # without a repetition writes at most len(states) times
+        limit = 3 * len(states) + 10
         if kind == 'pump':
             # the chain itself is the evidence (the same mutator enlarged
             # its own result PUMP_STEPS times); the real tool must be seen
@@ -468,6 +556,12 @@ def classify(kind, mnames, texts):
             t.startswith('|') and t[1:-1] in (declared | alltoks)
             for t in alltoks if len(t) > 2):
         return 'cycle:simple-and-quoted-form-both-declared'
+    if set(mnames) == {'EliminateVariable', 'ReplaceByVariable'} and \
+            len({len(refreader.lex(t)) for t in texts}) > 1:
+        # a variable eliminated in favour of a *compound* term (the inputs
+        # of the chain differ in size), and the term replaced by that
+        # variable again; variable-for-variable cycles keep the size
+        return 'cycle:EliminateVariable+ReplaceByVariable:compound-term'
     return f'{kind if kind in ("noop", "pump") else "cycle"}:' + \
         '+'.join(mnames)
 
@@ -583,9 +677,9 @@ def shard(args):
     base = common.scratch_dir('c03')
     cands = []
     try:
-        seeds = []
-        if args['shard'] == 0:
-            seeds += CATALOGUE
+        seeds = [t for k, t in enumerate(CATALOGUE)
+                 if k % common.NCPU == args['shard']]
+        ncat = len(seeds)
         for i in range(args['tiny']):
             pool = ['ints', 'reals', 'bv', 'fp', 'strings', 'arrays', 'dt',
                     'uf', 'let', 'quant', 'defs', 'annot']
@@ -605,7 +699,6 @@ def shard(args):
             cmds = cmds[:fa] + nd + [gen_smt.Cmd(['assert', t])
                                      for t in extra] + cmds[fa:]
             seeds.append(refreader.render(gen_smt.Script(cmds).nested()))
-        ncat = len(CATALOGUE) if args['shard'] == 0 else 0
         for si, text in enumerate(seeds):
             nnodes = len(refreader.lex(text))
             res.count('tiny_seeds')
@@ -624,6 +717,11 @@ def shard(args):
                                   ex, ns, res, text, args.get('ss_depth', 3),
                                   args.get('ss_cap', 25))]
             ex.set_mode('inc')
+            if nnodes <= 80 and (si < ncat or si % 2 == 0):
+                cands += [(c, f'seed{args["shard"]}:{si}:inc:growth')
+                          for c in growth_cycles(
+                              ex, ns, res, text, args.get('g_depth', 3),
+                              args.get('g_cap', 40))]
             res.add_distinct(common.digest(text))
             if si < 1:
                 res.sample({'seed': text})
@@ -650,7 +748,7 @@ def shard(args):
         done = set()
         prio = {'pump': 0, 'noop': 1}
         cands.sort(key=lambda c: prio.get(c[0][0], 2))
-        ncap = args['confirm'] * (4 if args['shard'] == 0 else 1)
+        ncap = args['confirm']
         for ci, (cand, origin) in enumerate(cands):
             res.count('cycle_or_noop_candidates')
             names = {n for n, _ in cand[1]}
@@ -676,7 +774,8 @@ def run(ctx):
     shards = [{'shard': i, 'tiny': 2 if q else 60, 'walks': 2 if q else 80,
                'confirm': 3 if q else 12, 'w3': 2 if q else 20,
                'ss_depth': 3 if q else 4, 'ss_cap': 25 if q else 300,
-               'scaling': 2 if q else 40}
+               'scaling': 2 if q else 40, 'g_depth': 3 if q else 4,
+               'g_cap': 40 if q else 400}
               for i in range(common.NCPU)]
     results = common.run_shards('checks.c03', shards, timeout=3500)
     common.merge_shards(ctx, results)
